@@ -334,6 +334,10 @@ def run_history(c):
       draws += b
     if seen != set(h):
       raise Violation('uniform_support', f'{kind} N={n} B={b}: after {draws} draws saw {sorted(seen)}, holds {h}')
+  if wrapper != 'none':
+    # PmapWrapper / PjitWrapper build a new pmap/pjit closure on every call, i.e. a new executable per operation;
+    # thousands of them exhaust the process' memory mappings (vm.max_map_count) in the thorough tier
+    jax.clear_caches()
   nontrivial = bool(flags['nt'] or flags['overflow_after_partial'] or flags['exact_fill'])
   labels = [f'kind:{kind}', f'wrapper:{wrapper}', f'record:{record}', 'jit' if use_jit else 'eager']
   if flags['overflow_after_partial']:
